@@ -37,6 +37,13 @@ RULE = ("a ThreadedWriter around a recording destination (with a failure mask ov
         "until everything has been offered (a slow write) and notes any call that begins while another has not returned: every message offered in a process between its "
         "startService and stopService is passed exactly once, in order, on one thread that is not a caller's, never two at a time, before stopService's result completes "
         "(for the copy of a running writer in a forked child, whose writer thread does not exist there, only: at most once, in order, on at most one foreign thread, and nothing that the parent was offered). "
+        "part 'launcher' (OS scheduling, really forked processes; every thread started through threading.Thread is kept in a ledger by object): a daemonising launcher builds the writer, "
+        "forks once or twice, and only the surviving (grand)child runs 1-3 startService/offer/stopService cycles (1-2 offering threads, in part through eliot's Logger), or the parent forks while "
+        "its writer is running and the child uses only a new writer it builds itself while the parent goes on with its own; the wrapped destination is slow on selected messages: such a write "
+        "lasts until the thread that offered the message has offered its next one (an event) and a short while longer, and any call that begins while another has not returned is noted - "
+        "every message is passed exactly once, each producer's in order (begin and end of the writes), all of a cycle on one thread that is not a caller's, never two at a time; stopService's "
+        "result completes, at the latest 10 s after the destination has returned for every message offered before it, and not before; once it has completed no thread that the writer started "
+        "is still running 3 s later (watchdog expiries without such an observation are INCONCLUSIVE). "
         "non-trivial = schedule whose preemption fired in logwriter.py or with stop concurrent to offers; distinct by "
         "interleaving hash")
 ASSUMPTIONS = ["twisted is not installed: Service and deferToThreadPool are the stand-ins of vf/twisted_stub.py, which reproduce only the two "
@@ -53,6 +60,7 @@ def plan(tier, seed):
     specs += [{"seed": seed, "i": i, "tier": tier, "signals": True} for i in range(4 if tier == "quick" else 12)]
     specs += [{"seed": seed, "i": i, "tier": tier, "nostderr": True} for i in range(5 if tier == "quick" else 40)]
     specs += [{"seed": seed, "i": i, "tier": tier, "fork": True} for i in range(8 if tier == "quick" else 60)]
+    specs += [{"seed": seed, "i": i, "tier": tier, "launcher": True} for i in range(9 if tier == "quick" else 90)]
     return specs
 
 
@@ -857,8 +865,400 @@ def run_fork(spec, res):
                                              "child_overlaps": rep.get("overlaps", [])[:5]}})
 
 
+LAUNCHER_SCENARIOS = ["construct_fork_start", "construct_fork_fork_start", "running_fork_new_writer"]
+LAUNCHER_GATE_GRACE = 0.12   # how long a held write goes on waiting for a second writing thread to show up once the next message is on offer
+LAUNCHER_STOP_GRACE = 10.0   # stopService's result must complete within this after the destination has returned for every message
+LAUNCHER_LEAK_GRACE = 3.0    # a thread of the writer still alive this long after stopService's result completed is left behind
+LAUNCHER_WATCHDOG = 60.0     # expiry = inconclusive
+
+
+class ThreadLedger(object):
+    """Every thread object started through threading.Thread (the scheduler's subclass and the real class alike) from install()
+    on, kept alive: threads are told apart by object, never by OS ident."""
+
+    def __init__(self):
+        self.started = []
+        self._orig = None
+
+    def install(self):
+        real = sched._real_Thread
+        orig = real.start
+        ledger = self
+
+        def start(thread):
+            ledger.started.append(thread)
+            return orig(thread)
+        self._orig = orig
+        real.start = start
+
+    def uninstall(self):
+        if self._orig is not None:
+            sched._real_Thread.start = self._orig
+            self._orig = None
+
+
+class GateRecorder(object):
+    """The wrapped destination of part 'launcher': slow on selected messages. The write of a gated message lasts until the thread
+    that offered it has offered its next message (an event), and then until either a second call into the destination has begun
+    (an event: two threads are writing) or a short grace is over (nothing is concluded from that). Lock-free: it may be copied by fork()."""
+
+    def __init__(self, tag, failing, grace):
+        import threading
+        self.tag = tag
+        self.failing = failing
+        self.grace = grace
+        self.calls = []      # [tag, p, seq, cyc, thread number] on entry
+        self.done = []       # [tag, p, seq, cyc] when the call is over
+        self.overlaps = []   # [key that began, key whose call had not returned]
+        self.inside = []
+        self.threads = []    # thread objects seen, kept alive: position = a name that is never reused
+        self.gates = {}      # (p, seq, cyc) -> Event set by the offering thread once the NEXT message has been offered
+        self.gates_held = 0
+        self.gate_timeouts = 0
+        self.overlap_seen = threading.Event()
+
+    def me(self):
+        import threading
+        t = threading.current_thread()
+        for k, x in enumerate(self.threads):
+            if x is t:
+                return k
+        self.threads.append(t)
+        return self.threads.index(t)
+
+    def __call__(self, msg):
+        key = [msg.get("tag"), msg.get("p"), msg.get("seq"), msg.get("cyc")]
+        if self.inside:
+            self.overlaps.append([key, list(self.inside[-1])])
+            self.overlap_seen.set()
+        self.inside.append(key)
+        self.calls.append(key + [self.me()])
+        try:
+            gate = self.gates.get(tuple(key[1:])) if key[0] == self.tag else None
+            if gate is not None and not self.overlap_seen.is_set():
+                if not gate.wait(30):
+                    self.gate_timeouts += 1
+                else:
+                    self.gates_held += 1
+                    self.overlap_seen.wait(self.grace)
+            if tuple(key) in self.failing:
+                raise excs.DestFault("wrapped destination fails for %r" % (key,))
+        finally:
+            self.inside.remove(key)
+            self.done.append(key)
+
+
+def _launcher_use(writer, rec, ledger, tag, nprod, nmsg, cycles, gated, first_running, pre, via_logger):
+    """Drive `writer` (wrapped destination `rec`) in the current process for `cycles` start/stop cycles; producer 0 is the calling
+    thread. gated: set of (p, seq, cyc) whose write is slow. first_running: cycle 0 was started already (and `pre` offered). -> report"""
+    import threading
+    import time
+    callers = [rec.me()]
+    ours = []          # threads of the harness (producers, the stand-in thread pool's helper)
+    completed = []
+    leaked = []
+    tracked = 0
+    stuck = unfinished = None
+    stuck_detail = None
+    offer_errors = []
+    logger = eliot.Logger() if via_logger else None
+    for cyc in range(cycles):
+        for (p, s_, c_) in gated:
+            if c_ == cyc:
+                rec.gates[(p, s_, c_)] = threading.Event()
+        first_of_cycle = 0 if (first_running and cyc == 0) else len(ledger.started)
+        with warnings.catch_warnings():
+            warnings.simplefilter("ignore")
+            if not (first_running and cyc == 0):
+                writer.startService()
+
+        def offer(p, cyc=cyc):
+            if p:
+                callers.append(rec.me())
+            prev = None
+            try:
+                for s_ in range(nmsg):
+                    m = {"tag": tag, "p": p, "seq": s_, "cyc": cyc}
+                    if logger is not None:
+                        logger.write(m)
+                    else:
+                        writer(m)
+                    if prev is not None:
+                        prev.set()  # the message after a gated one is on offer now
+                    prev = rec.gates.get((p, s_, cyc))
+            except BaseException as e:
+                offer_errors.append("offering message (%r, %d, %d) raised %r" % (p, s_, cyc, e))
+            finally:
+                if prev is not None:
+                    prev.set()
+                for (p2, s2, c2), ev in list(rec.gates.items()):
+                    if p2 == p and c2 == cyc:
+                        ev.set()
+        others = [sched._real_Thread(target=offer, args=(p,), daemon=True) for p in range(1, nprod)]
+        ours.extend(others)
+        for t in others:
+            t.start()
+        offer(0)
+        for t in others:
+            t.join()
+        expected = set((tag, p, s_, cyc) for p in range(nprod) for s_ in range(nmsg))
+        if first_running and cyc == 0:
+            expected |= set(tuple(k) for k in pre)
+        with warnings.catch_warnings():
+            warnings.simplefilter("ignore")
+            handle = writer.stopService()
+        ours.append(handle.thread)
+        t0 = time.monotonic()
+        t_all = None
+        while True:
+            handle.thread.join(0.05)
+            if handle.finished:
+                break
+            now = time.monotonic()
+            if t_all is None and expected <= set(tuple(k) for k in list(rec.done)):
+                t_all = now  # the wrapped destination has returned for every message offered before stopService
+            if t_all is not None and now - t_all > LAUNCHER_STOP_GRACE:
+                stuck = cyc
+                stuck_detail = len(expected)
+                break
+            if now - t0 > LAUNCHER_WATCHDOG:
+                unfinished = cyc
+                break
+        if stuck is not None or unfinished is not None:
+            break
+        completed.append(len(rec.done))
+        handle.thread.join(5)
+        mine = [t for t in ledger.started[first_of_cycle:] if not any(t is o for o in ours)]
+        tracked += len(mine)
+        alive = [t for t in ledger.started if not any(t is o for o in ours) and t.is_alive()]
+        if alive:
+            deadline = time.monotonic() + LAUNCHER_LEAK_GRACE
+            for t in alive:
+                t.join(max(0.0, deadline - time.monotonic()))
+            alive = [t for t in alive if t.is_alive()]
+        if alive:
+            leaked.append([cyc, len(alive), sum(1 for t in alive if any(t is x for x in rec.threads))])
+    return {"calls": list(rec.calls), "done": list(rec.done), "overlaps": list(rec.overlaps), "callers": callers, "completed": completed,
+            "stuck": stuck, "stuck_detail": stuck_detail, "unfinished": unfinished, "leaked": leaked, "tracked": tracked,
+            "gates_held": rec.gates_held, "gate_timeouts": rec.gate_timeouts, "offer_errors": offer_errors}
+
+
+def _launcher_judge(rep, where, tag, keys, cycles, problems):
+    """keys: [tag, p, seq, cyc] offered in this process (each producer's in offer order). -> reason for inconclusive or None"""
+    if rep.get("error"):
+        problems.append("%s: the caller's side raised %s" % (where, rep["error"]))
+        return None
+    for e in rep["offer_errors"][:2]:
+        problems.append("%s: %s" % (where, e))
+    calls = [tuple(x) for x in rep["calls"]]
+    got = [x[:4] for x in calls]
+    done = [tuple(x) for x in rep["done"]]
+    for a, b in rep["overlaps"][:2]:
+        problems.append("%s: message %s was passed to the wrapped destination while its call for message %s had not returned (two threads are writing)"
+                        % (where, tuple(a), tuple(b)))
+    count = {}
+    for k in got:
+        count[k] = count.get(k, 0) + 1
+    twice = sorted((k for k in count if count[k] > 1), key=repr)
+    if twice:
+        problems.append("%s: message %s was passed to the wrapped destination %d times" % (where, twice[0], count[twice[0]]))
+    foreign = [k for k in got if k[0] != tag]
+    if foreign:
+        problems.append("%s: message %s, offered to another writer, was passed to this writer's destination" % (where, foreign[0]))
+    for cyc in range(cycles):
+        idents = set(x[4] for x in calls if x[3] == cyc and x[0] == tag)
+        if len(idents) > 1:
+            problems.append("%s: cycle %d: the wrapped destination was called on %d different threads" % (where, cyc, len(idents)))
+        if idents & set(rep["callers"]):
+            problems.append("%s: cycle %d: the wrapped destination was called on a caller's thread" % (where, cyc))
+    for p in sorted(set(k[1] for k in keys), key=str):
+        for what, seq_of in (("passed to the wrapped destination", got), ("finished being written", done)):
+            seq = [(k[3], k[2]) for k in seq_of if k[1] == p and k[0] == tag]
+            if seq != sorted(seq):
+                problems.append("%s: producer %s's messages were %s out of order: %s" % (where, p, what, seq[:12]))
+                break
+    if rep["stuck"] is not None:
+        problems.append("%s: cycle %d: stopService's result had still not completed %g s after the wrapped destination had returned for every one of the %d "
+                        "messages offered before it" % (where, rep["stuck"], LAUNCHER_STOP_GRACE, rep["stuck_detail"]))
+    ncomplete = len(rep["completed"])
+    for cyc in range(min(cycles, ncomplete)):
+        by_stop = set(done[:rep["completed"][cyc]])
+        missing = [tuple(k) for k in keys if k[3] == cyc and tuple(k) not in count]
+        late = [tuple(k) for k in keys if k[3] == cyc and tuple(k) in count and tuple(k) not in by_stop]
+        if missing:
+            problems.append("%s: %d of the messages offered in cycle %d were never passed to the wrapped destination although stopService's result completed, first %s"
+                            % (where, len(missing), cyc, missing[0]))
+        elif late:
+            problems.append("%s: stopService's result of cycle %d completed while the write of message %s had not finished" % (where, cyc, late[0]))
+    for cyc, n, writing in rep["leaked"][:2]:
+        problems.append("%s: cycle %d: %d thread(s) started by the writer were still running %g s after stopService's result had completed%s"
+                        % (where, cyc, n, LAUNCHER_LEAK_GRACE, " (%d of them had been calling the wrapped destination)" % writing if writing else ""))
+    if rep["unfinished"] is not None:
+        if not problems:
+            return "%s: stopService's result of cycle %d did not complete within %g s and not every write was observed" % (where, rep["unfinished"], LAUNCHER_WATCHDOG)
+        problems.append("%s: stopService's result of cycle %d had not completed when the run was given up" % (where, rep["unfinished"]))
+        return None
+    if rep["gate_timeouts"] and not problems:
+        return "%s: a held write was not released by its producer within 30 s" % where
+    return None
+
+
+def run_launcher(spec, res):
+    """A daemonising launcher: the services (the writer among them) are built first, then the process forks (once or twice), and
+    only the surviving child calls startService(); 1-3 start/stop cycles there, with a destination that is slow on selected messages.
+    Third scenario: the parent's writer is running at the fork and stays the parent's; the child builds and uses its own."""
+    import json
+    import os
+    import select
+    import signal
+    import time
+    rng = random.Random("%s:C19:launcher:%d" % (spec["seed"], spec["i"]))
+    scenario = LAUNCHER_SCENARIOS[spec["i"] % len(LAUNCHER_SCENARIOS)]
+    nprod = rng.choice([1, 1, 2])
+    nmsg = rng.choice([2, 4, 7, 15])
+    cycles = rng.choice([1, 2, 3])
+    pcycles = rng.choice([1, 2])
+    via_logger = scenario != "running_fork_new_writer" and rng.random() < 0.3
+    new_writer = scenario == "running_fork_new_writer"
+
+    def keys_of(tag, ncyc):
+        return [[tag, p, s_, c_] for c_ in range(ncyc) for p in range(nprod) for s_ in range(nmsg)]
+
+    def pick_gates(ncyc):
+        g = set()
+        for c_ in range(ncyc):
+            g.add((0, rng.randrange(nmsg - 1), c_))  # one held write per cycle that has a successor from the same producer
+            for p in range(nprod):
+                for s_ in range(nmsg):
+                    if rng.random() < 0.12:
+                        g.add((p, s_, c_))
+        return g
+    cgates = pick_gates(cycles)
+    pgates = pick_gates(pcycles) if new_writer else set()
+    failing = set(tuple(k) for k in keys_of("child", cycles) + (keys_of("parent", pcycles) if new_writer else []) if rng.random() < 0.15)
+    res["evals"] += 1
+    c = res["counters"]
+    ledger = ThreadLedger()
+    ledger.install()
+    pre = []
+    try:
+        prec = GateRecorder("parent" if new_writer else "child", failing, LAUNCHER_GATE_GRACE)
+        with warnings.catch_warnings():
+            warnings.simplefilter("ignore")
+            writer = logwriter.ThreadedWriter(prec, twisted_stub.Reactor())
+            if new_writer:
+                writer.startService()
+        if new_writer:
+            prec.me()
+            for k in range(rng.choice([0, 2, 5])):
+                pre.append(["parent", "pre", k, 0])
+                writer({"tag": "parent", "p": "pre", "seq": k, "cyc": 0})
+        r, w = os.pipe()
+        with warnings.catch_warnings():
+            warnings.simplefilter("ignore")
+            pid = os.fork()
+        if pid == 0:
+            code = 0
+            try:
+                os.close(r)
+                if scenario == "construct_fork_fork_start":
+                    # the classic daemonising double fork: the intermediate process exits at once
+                    if os.fork() != 0:
+                        os._exit(0)
+                signal.signal(signal.SIGALRM, signal.SIG_DFL)
+                signal.alarm(170)  # never outlive the case: the default action ends the process
+                ledger.started = []
+                if new_writer:
+                    # the parent's running writer is left alone; this process logs through a writer of its own
+                    crec = GateRecorder("child", failing, LAUNCHER_GATE_GRACE)
+                    with warnings.catch_warnings():
+                        warnings.simplefilter("ignore")
+                        cwriter = logwriter.ThreadedWriter(crec, twisted_stub.Reactor())
+                else:
+                    crec, cwriter = prec, writer
+                rep = _launcher_use(cwriter, crec, ledger, "child", nprod, nmsg, cycles, cgates, False, [], via_logger)
+                data = json.dumps(rep).encode()
+                while data:
+                    data = data[os.write(w, data):]
+            except BaseException as e:
+                try:
+                    os.write(w, json.dumps({"error": repr(e)}).encode())
+                except BaseException:
+                    pass
+                code = 3
+            finally:
+                os._exit(code)
+        os.close(w)
+        prep = None
+        timed_out = False
+        try:
+            if new_writer:
+                try:
+                    prep = _launcher_use(writer, prec, ledger, "parent", nprod, nmsg, pcycles, pgates, True, pre, False)
+                except BaseException as e:
+                    prep = {"error": repr(e)}
+            data = b""
+            deadline = time.monotonic() + 200
+            while True:
+                left = deadline - time.monotonic()
+                if left <= 0 or not select.select([r], [], [], left)[0]:
+                    timed_out = True
+                    break
+                b = os.read(r, 65536)
+                if not b:
+                    break
+                data += b
+        finally:
+            os.close(r)
+            if timed_out:
+                try:
+                    os.kill(pid, signal.SIGKILL)
+                except OSError:
+                    pass
+            _, status = os.waitpid(pid, 0)
+    finally:
+        ledger.uninstall()
+    if timed_out:
+        res["inconclusive"] = "launcher/%s: the forked child did not report within 200 s" % scenario
+        return
+    if not data:
+        res["inconclusive"] = "launcher/%s: the forked child ended with status %r and no report" % (scenario, status)
+        return
+    rep = json.loads(data.decode())
+    problems = []
+    shape = "%d producer(s) x %d messages x %d cycle(s), %d slow write(s)%s" % (nprod, nmsg, cycles, len(cgates), ", offered through eliot's Logger" if via_logger else "")
+    what = {"construct_fork_start": "writer constructed before os.fork(), started, used and stopped only in the child",
+            "construct_fork_fork_start": "writer constructed before a double os.fork(), started, used and stopped only in the grandchild",
+            "running_fork_new_writer": "os.fork() while the parent's writer is running, the child uses a new writer of its own"}[scenario]
+    inc = _launcher_judge(rep, what + " (child, %s)" % shape, "child", keys_of("child", cycles), cycles, problems)
+    if new_writer and not inc:
+        inc = _launcher_judge(prep, what + " (parent's writer, %d cycle(s))" % pcycles, "parent", pre + keys_of("parent", pcycles), pcycles, problems)
+    if inc and not problems:
+        res["inconclusive"] = inc
+        return
+    c["launcher_runs"] = c.get("launcher_runs", 0) + 1
+    c["launcher_" + scenario] = c.get("launcher_" + scenario, 0) + 1
+    if not rep.get("error"):
+        k = "launcher_messages_written_by_a_new_writer_in_the_child" if new_writer else "launcher_messages_written_after_construct_fork_start"
+        c[k] = c.get(k, 0) + len(rep["calls"])
+        c["launcher_slow_writes_held_until_the_next_offer"] = c.get("launcher_slow_writes_held_until_the_next_offer", 0) + rep["gates_held"]
+        c["launcher_writer_threads_seen_ended_after_stop"] = c.get("launcher_writer_threads_seen_ended_after_stop", 0) + rep["tracked"] - sum(x[1] for x in rep["leaked"])
+        c["launcher_stop_results_completed"] = c.get("launcher_stop_results_completed", 0) + len(rep["completed"])
+        if via_logger:
+            c["launcher_runs_offering_through_eliot_logger"] = c.get("launcher_runs_offering_through_eliot_logger", 0) + 1
+    res["nontrivial"].append(h(["launcher", scenario, nprod, nmsg, cycles, sorted(cgates), sorted(failing), via_logger]))
+    if problems:
+        res["violations"].append({"msg": problems[0], "mech": None,
+                                  "detail": {"part": "launcher", "scenario": scenario, "producers": nprod, "messages_each": nmsg, "cycles": cycles,
+                                             "slow_writes": sorted(cgates), "failing": sorted(failing)[:20], "via_logger": via_logger, "problems": problems[:6],
+                                             "child_calls": rep.get("calls", [])[:40], "child_overlaps": rep.get("overlaps", [])[:5]}})
+
+
 def run_case(spec):
     res = {"evals": 0, "nontrivial": [], "counters": {}, "violations": [], "sample": None, "sets": {"interleavings": [], "preemption_lines": []}}
+    if spec.get("launcher"):
+        run_launcher(spec, res)
+        return res
     if spec.get("signals"):
         run_signals(spec, res)
         return res
@@ -975,6 +1375,14 @@ def finalize(agg, tier):
         return "no preemption landed inside eliot/logwriter.py"
     if c.get("messages_written_in_a_forked_child", 0) == 0:
         return "part 'fork': no message was written by a writer started in a forked child"
+    if c.get("launcher_messages_written_after_construct_fork_start", 0) == 0:
+        return "part 'launcher': no message was written by a writer constructed before os.fork() and started after it"
+    if c.get("launcher_messages_written_by_a_new_writer_in_the_child", 0) == 0:
+        return "part 'launcher': no message was written by a new writer in the child of a process whose own writer was running at the fork"
+    if c.get("launcher_slow_writes_held_until_the_next_offer", 0) == 0:
+        return "part 'launcher': no write was held until the next message was on offer"
+    if c.get("launcher_writer_threads_seen_ended_after_stop", 0) == 0 or c.get("launcher_stop_results_completed", 0) == 0:
+        return "part 'launcher': the thread ledger never saw a thread of the writer (started between startService and stopService) ended after stopService's result completed"
     if c.get("nostderr_destination_faults_fired", 0) == 0:
         return "part 'nostderr' never had the wrapped destination raise in a process without a usable stderr"
     return None
